@@ -245,7 +245,12 @@ func (r *Run) confirm(fr *failRec) (confirmed bool, note string) {
 			}
 		}
 		if !found {
-			return false, fmt.Sprintf("did not reproduce on a fresh worker (round %d)", round)
+			// not reproducible as the only assembly of a process: try it behind the cases that precede it
+			// in canonical order (a history-dependent failure; the history is deterministic)
+			if round == 0 && r.reproducesBehindPredecessors(sc, fr) {
+				return true, "HISTORY-DEPENDENT: reproduces only after the preceding cases of the scenario were assembled in the same process (see also C10)"
+			}
+			return false, fmt.Sprintf("did not reproduce on a fresh worker (round %d) nor behind its predecessors", round)
 		}
 		if round == 0 {
 			for i, s := range cs.Srcs {
@@ -257,6 +262,60 @@ func (r *Run) confirm(fr *failRec) (confirmed bool, note string) {
 		}
 	}
 	return true, note
+}
+
+// reproducesBehindPredecessors re-runs the failing case on ONE fresh worker after the (up to 40)
+// cases that precede it in canonical order, twice, and reports whether the same facet fails both times.
+func (r *Run) reproducesBehindPredecessors(sc *Scenario, fr *failRec) bool {
+	const k = 40
+	var prev [][]string
+	func() {
+		defer func() { recover() }()
+		Enumerate(sc, func(cs *Case) {
+			if cs.Index >= fr.Index {
+				panic("stop")
+			}
+			prev = append(prev, cs.Srcs)
+			if len(prev) > k {
+				prev = prev[1:]
+			}
+		})
+	}()
+	for round := 0; round < 2; round++ {
+		cs := BuildPath(sc, fr.Path)
+		if cs == nil {
+			return false
+		}
+		var ops []Op
+		for _, srcs := range prev {
+			for _, s := range srcs {
+				ops = append(ops, Op{Src: []byte(s)})
+			}
+		}
+		base := len(ops)
+		for _, s := range cs.Srcs {
+			ops = append(ops, Op{Src: []byte(s)})
+		}
+		out, died := r.Cfg.Pool.History(ops)
+		if died || len(out) != len(ops) {
+			return false
+		}
+		rs := make([]*Result, len(cs.Srcs))
+		for i := range cs.Srcs {
+			rs[i] = &out[base+i]
+		}
+		v := cs.Judge(rs)
+		found := false
+		for _, f := range v.Fails {
+			if f.Facet == fr.Fail.Facet && f.Dev == fr.Fail.Dev {
+				found = true
+			}
+		}
+		if !found {
+			return false
+		}
+	}
+	return true
 }
 
 // Finish matches failures against the known findings, confirms and reports the rest, writes the
